@@ -506,6 +506,8 @@ class ProgGen:
         r = self.rng
         item = r.choice([4, 8, 16])
         k = r.randrange(1, 5)
+        if r.random() < 0.12:
+            k, item = 0, 0          # an EMPTY pool: legal (size 0, alignment 0); the label is aligned-to and bound all the same
         items = []
         while len(items) < k:
             b = bytes(r.getrandbits(8) for _ in range(item))
@@ -651,6 +653,20 @@ class ProgGen:
                 if self.nsections > 1 and r.random() < 0.8:   # ... then switch sections and record something there
                     self.gen_section()
                     self.gen_inst()
+        elif x < 0.50 and n > 3 and len([m for m in lo.act[1:] if m["kind"] == "S"]) >= 1 and r.random() < 0.5:
+            # aimed at the link cache: with CLEAN links remove a range that ENDS with a section node, then switch to the section in front of it
+            secs = [k for k, m in enumerate(lo.act) if m["kind"] == "S" and k >= 1]
+            j = r.choice(secs)
+            i = max(0, j - r.randrange(1, 4))
+            before = [m["sec"] for m in lo.act[:i] if m["kind"] == "S"]
+            if i < j and j - i + 1 < n and before:
+                self.emit("USL")
+                self.emit("RMR %d %d" % (i, j))
+                lo.remove_range(i, j)
+                self.count("edit_remove_range_ending_with_section")
+                self._resync_section()
+                self.gen_section(before[-1])
+                self.gen_inst()
         elif x < 0.55 and n > 3:
             i = r.randrange(n - 1)
             j = min(n - 1, i + r.randrange(0, 4))
@@ -770,10 +786,57 @@ class ProgGen:
                 c = self.unbound_here()
                 if c:
                     self.gen_bind(r.choice(c))
+        pools = {0: None, 1: None}      # scope -> [label id, {constant: offset}]
+        nann = [0]
+
+        def form(name):
+            return [f for f in self.cat.forms[self.arch] if f["name"] == name][0]
+
+        def new_const(scope):
+            """_new_const + an instruction that reads the constant through [pool label + offset]"""
+            c = bytes(r.getrandbits(8) for _ in range(8)) if r.random() < 0.8 or not pools[scope] or not pools[scope][1] else r.choice(sorted(pools[scope][1]))
+            self.emit("NC %d %s" % (scope, hexs(c)))
+            if pools[scope] is None:
+                pools[scope] = [self.nlabels, {}]
+                self.home[self.nlabels] = 0
+                self.bound.add(self.nlabels)
+                self.nlabels += 1
+            lab, offs = pools[scope]
+            if c not in offs:
+                offs[c] = 8 * len(offs)
+            f = form("mov_r_ml" if self.arch != 2 else "ldr_lit")
+            ops = []
+            for (k, w) in f["ops"]:
+                w = list(w)
+                if k == "ml":
+                    w[1], w[3] = lab, offs[c]
+                ops.append(w)
+            self.simple("I %d %d %s" % (f["id"], len(ops), " ".join(" ".join(str(x) for x in w) for w in ops)), "inst_reading_pool_constant")
+            self.count("new_const_scope_%d" % scope)
+
+        def annotated_jump():
+            labs = [r.randrange(self.nlabels) for _ in range(r.randrange(0, 3))] if self.nlabels else []
+            self.emit("JA %s" % " ".join(map(str, labs)))
+            f = form("jmp_r" if self.arch != 2 else "br")
+            if r.random() < 0.4:
+                self.emit("SC %s" % hexs(self.rnd_comment()))
+            self.simple("IJ %d %d %s" % (f["id"], nann[0], " ".join(str(x) for x in f["ops"][0][1])), "annotated_jump")
+            nann[0] += 1
+
+        def invoke():
+            f = form("call_r" if self.arch != 2 else "blr")
+            if r.random() < 0.3:
+                self.emit("SC %s" % hexs(self.rnd_comment()))
+            self.simple("IV %d 0 %s" % (f["id"], " ".join(str(x) for x in f["ops"][0][1])), "invoke")
+
         for _ in range(r.randrange(1, 4)):
             self.new_label(home=0)
         for _ in range(r.randrange(0, 4)):
             body_step()
+        if r.random() < 0.3:
+            annotated_jump()
+        if r.random() < 0.3:
+            new_const(1)
         for _ in range(r.randrange(1, 3)):
             if r.random() < 0.4:                   # one-shot state in front of add_func: the comment goes to the FuncNode, the rest is dropped
                 self.emit("SC %s" % hexs(self.rnd_comment()))
@@ -786,7 +849,13 @@ class ProgGen:
             self.bound.update((self.nlabels - 2, self.nlabels - 1))
             self.count("func")
             for _ in range(r.randrange(1, 12)):
-                body_step()
+                y = r.random()
+                if y < 0.12:
+                    new_const(r.choice([0, 0, 1]))
+                elif y < 0.2:
+                    invoke()
+                else:
+                    body_step()
             if r.random() < 0.7:
                 if r.random() < 0.4:
                     self.emit("SC %s" % hexs(self.rnd_comment()))
@@ -795,8 +864,11 @@ class ProgGen:
                 self.emit("FR")
                 self.count("func_ret")
             self.emit("FE")
+            pools[0] = None                         # end_func flushes the local pool; the next function starts a new one
             for _ in range(r.randrange(0, 3)):
                 body_step()
+            if r.random() < 0.2:
+                annotated_jump()
         return []
 
     def text(self, base1, base2):
